@@ -29,8 +29,12 @@ INVARIANT ImplCalls
 INVARIANT NeverStuck
 INVARIANT TypeOK
 """
-MC_CFG = """CONSTANT Wide = %s
+MCGEN_CFG = """CONSTANT Wide = %s
 INIT Init
+NEXT Next
+CHECK_DEADLOCK FALSE
+"""
+MC_CFG = """INIT Init
 NEXT Next
 CHECK_DEADLOCK FALSE
 INVARIANT TypeOK
@@ -238,6 +242,29 @@ def node_suspects(ctx, items):
     return sus
 
 
+def sanity_model(ctx, wide=None):
+    """Idiom M: TLC evaluates the TLA+-written cases of Wasm_MCGen once, then model-checks Wasm.tla over them."""
+    out = os.path.join(ctx.workdir, "wasm_mc_cases.json")
+    wide = (ctx.tier == "thorough") if wide is None else wide
+    gen = ctx.tlc("Wasm_MCGen", MCGEN_CFG % ("TRUE" if wide else "FALSE"), label="Wasm_MC cases (TLA+)",
+                  env={"MC_OUT": out}, workers=1, coverage=False)
+    if gen.errors or not os.path.exists(out):
+        raise MachineryError("Wasm_MCGen failed: %s" % (gen.errors or gen.raw[-800:]))
+    res = ctx.tlc("Wasm_MC", MC_CFG, label="Wasm semantics sanity", env={"TRACE_FILE": out}, workers=8, continue_=True)
+    os.unlink(out)
+    for e in res.errors:
+        raise MachineryError("Wasm.tla sanity model fails: %s\n%s\n%s" % (e, e.text[:600], str(e.last)[:1500]))
+    need = {"Const", "Binary", "Compare", "Unary", "Convert", "Drop", "Select", "LocalGet", "LocalSet", "GlobalGet",
+            "GlobalSet", "Load", "Store", "MemorySize", "MemoryGrow", "Nop", "Unreachable", "Block", "Loop", "If", "Else",
+            "End", "FuncEnd", "Br", "BrIf", "BrTable", "Return", "Call", "CallIndirect", "NotModelled", "Exhaust",
+            "NextCall", "NextModule", "PickCase"}
+    cov = core.tlcmod.action_coverage(res)
+    missing = sorted(a for a in need if not cov.get("Wasm." + a))
+    if cov and missing:
+        raise MachineryError("Wasm_MC does not take the actions %s" % missing)
+    return res
+
+
 class Engine:
     LEVEL = "model_checking"
 
@@ -253,9 +280,7 @@ class Engine:
                    "exception, a crash of the process or a silent result is not a trap")
         ctx.assume("memory.grow inside the declared maximum succeeds (the specification allows it to fail)")
         if ctx.only is None:
-            res = ctx.tlc("Wasm_MC", MC_CFG % ("TRUE" if ctx.tier == "thorough" else "FALSE"), label="Wasm semantics sanity", workers=8)
-            for e in res.errors:
-                raise MachineryError("Wasm.tla sanity model fails: %s\n%s" % (e, e.text[:1500]))
+            sanity_model(ctx)
         items = corpus(ctx)
         if ctx.only is not None:
             want = ctx.only["key"].split(":")[2].split("/")[0]
